@@ -286,6 +286,12 @@ int main(int argc, char **argv) {
         std::string r1 = face_report(f1), r2 = face_report(f2);
         if (r1 != r2) V("pair:self-report", "%s", first_diff(r1, r2).c_str());
         std::vector<uint32_t> rep = repertoire(f1, 0x20000);
+        {   // the input domain must not come from one side of the comparison only
+            std::vector<uint32_t> rep2 = repertoire(f2, 0x20000), u;
+            if (rep2 != rep) V("pair:repertoire", "the two fonts support different code points (%zu vs %zu)", rep.size(), rep2.size());
+            std::set_union(rep.begin(), rep.end(), rep2.begin(), rep2.end(), std::back_inserter(u));
+            rep.swap(u);
+        }
         for (long k = 0; k < a.cases; ++k) {
             if (!a.runs(k)) continue;
             Rng r(a.case_seed(k));
